@@ -78,6 +78,11 @@ BASES = [
     [("In", [(["X"], ID("float64"), None), (["Y"], ("star", ID("uint32")), 'json:"y" parquet:"why"')]),
      ("Mid", [([], ID("In"), None), (["Z"], ID("bool"), None)]),
      ("T", [([], ID("Mid"), None), (["W"], ID("uint64"), None), (["V"], ("star", ID("In")), None)])],
+    # one struct embedded as the FIRST field of two different structs (3 columns: a slice with spare capacity)
+    [("Base", [(["A"], ID("int32"), 'parquet:"a"'), (["B"], ID("string"), 'parquet:"b"'), (["C"], ("star", ID("int64")), 'parquet:"c"')]),
+     ("Home", [([], ID("Base"), None), (["Zip"], ID("string"), 'parquet:"home_zip"')]),
+     ("Work", [([], ID("Base"), None), (["Zip"], ID("string"), 'parquet:"work_zip"'), (["Floor"], ("star", ID("int32")), None)]),
+     ("T", [(["ID"], ID("int64"), None), (["Home"], ID("Home"), 'parquet:"home"'), (["Work"], ("star", ID("Work")), 'parquet:"work"'), (["Past"], ("arr", ID("Home"), False), None)])],
     # field declarations with several names sharing one type (and one tag-less declaration each)
     [("Pt", [(["X", "Y"], ID("float64"), None), (["Label"], ("star", ID("string")), 'parquet:"label"')]),
      ("T", [(["A", "B", "C"], ID("int32"), None), (["P", "Q"], ("star", ID("Pt")), None), (["Tags", "More"], ("arr", ID("string"), False), None)])],
@@ -138,6 +143,20 @@ def variants_embedded(base):
     return out
 
 
+def inline_all(base):
+    """every embedded field replaced by the fields of its struct, recursively (the inline definition)"""
+    byname = dict(base)
+    def fields_of(fs, depth=0):
+        out = []
+        for names, t, tag in fs:
+            if not names and t[0] == "id" and t[1] in byname and depth < 8:
+                out += fields_of(byname[t[1]], depth + 1)
+            else:
+                out.append((names, t, tag))
+        return out
+    return [(n, fields_of(fs)) for n, fs in base]
+
+
 def run(chk):
     thorough = chk.tier == "thorough"
     cov = {"steps": {}}
@@ -154,6 +173,8 @@ def run(chk):
             cases.append((d, b, desc, "excluded"))
         for d, desc in variants_embedded(b):
             cases.append((d, b, desc, "embedded"))
+        if any(not names for _, fs in b for names, _, _ in fs):
+            cases.append((inline_all(b), b, "every embedded struct written inline", "embedded"))
     impl = common.chunked_parallel(pair.impl, ["parse-struct T %s" % render(d).encode().hex() for d, _, _, _ in cases], workers=8, chunk=50)
     model = common.chunked_parallel(pair.model, ["parse-struct T %s" % model_text(d) for d, _, _, _ in cases], workers=8, chunk=100)
     base_tree = {}
